@@ -105,8 +105,14 @@ func ruleC10Same(e *Env) {
 		var in info
 		for _, call := range e.C.Calls(fn, func(f *ssa.Function) bool { return true }) {
 			callee := e.C.StaticCallee(&call.Call)
-			if flow.InRepo(callee) && in.guard == nil && len(call.Call.Args) >= 2 && call.Call.Args[1] == ssa.Value(fn.Params[0]) {
-				in.guard = callee
+			// the guard: the first call of a module function in the entry block that is handed the input (at whatever
+			// position the parameter list has it) — not an error constructor further down
+			if flow.InRepo(callee) && in.guard == nil && len(fn.Blocks) > 0 && call.Block() == fn.Blocks[0] {
+				for _, a := range call.Call.Args {
+					if a == ssa.Value(fn.Params[0]) {
+						in.guard = callee
+					}
+				}
 			}
 			if strings.HasPrefix(callee.String(), "(*regexp.Regexp).") {
 				if in.call != nil {
@@ -144,6 +150,76 @@ func ruleC10Same(e *Env) {
 			e.S.Ok(rule, flow.FnName(x.fn), "subject", "the whole input is matched", "")
 		} else {
 			e.S.Bad(rule, flow.FnName(x.fn), "subject", "the regexp is applied to something other than the whole input", e.posOf(x.in.call), "")
+		}
+	}
+	// Valid looks at nothing the parser does not look at: every branch of it is decided by the guard's answers or by
+	// the match (a further test — a length, a letter, the rule value — makes it refuse or admit texts on its own), and
+	// the guard is handed Valid's own input and rule unchanged
+	{
+		site := flow.FnName(va)
+		var guardCall *ssa.Call
+		for _, call := range e.C.Calls(va, flow.InRepo) {
+			if e.C.StaticCallee(&call.Call) == b.guard {
+				guardCall = call
+			}
+		}
+		var fromCalls func(v ssa.Value, depth int) bool
+		fromCalls = func(v ssa.Value, depth int) bool {
+			if depth > 6 {
+				return false
+			}
+			switch x := v.(type) {
+			case *ssa.Const:
+				return true
+			case *ssa.Call:
+				if x == b.call || x == guardCall {
+					return true
+				}
+				if bi, ok := x.Call.Value.(*ssa.Builtin); ok && bi.Name() == "len" {
+					return fromCalls(x.Call.Args[0], depth+1)
+				}
+				return false
+			case *ssa.Extract:
+				return fromCalls(x.Tuple, depth+1)
+			case *ssa.BinOp:
+				return fromCalls(x.X, depth+1) && fromCalls(x.Y, depth+1)
+			case *ssa.UnOp:
+				return fromCalls(x.X, depth+1)
+			case *ssa.Phi:
+				for _, ed := range x.Edges {
+					if !fromCalls(ed, depth+1) {
+						return false
+					}
+				}
+				return true
+			}
+			return false
+		}
+		bad := ""
+		var at ssa.Instruction
+		for _, blk := range va.Blocks {
+			if iff, ok := blk.Instrs[len(blk.Instrs)-1].(*ssa.If); ok && !fromCalls(iff.Cond, 0) {
+				bad, at = iff.Cond.String(), iff
+			}
+		}
+		passes := guardCall != nil
+		if guardCall != nil {
+			for _, arg := range guardCall.Call.Args {
+				if _, isC := arg.(*ssa.Const); isC {
+					continue
+				}
+				if p, isP := arg.(*ssa.Parameter); !isP || p.Parent() != va {
+					passes = false
+				}
+			}
+		}
+		switch {
+		case bad != "":
+			e.S.Bad(rule, site, "nothing else", "Valid branches on "+bad+", which is neither the guard's answer nor the match: it refuses or admits texts the parser treats otherwise", e.posOf(at), "Ix")
+		case !passes:
+			e.S.Bad(rule, site, "nothing else", "the guard is not handed Valid's own input and rule unchanged", e.Pos(va), "the empty text under a rule with a second bit set")
+		default:
+			e.S.Ok(rule, site, "nothing else", "every branch of Valid is decided by the guard's answers or the match; the guard gets Valid's input and rule as they are", e.Pos(va))
 		}
 	}
 	// after the match test, the parser has no further error return
